@@ -76,14 +76,22 @@ def probe_norm(name, D, N, dt, seed, steps=1):
     return res
 
 
-def probe_norm_anisotropic(name, D, N, dt, seed):
-    """strongly anisotropic SPD diffusivity matrices (large off-diagonal entries): still PSD, so still no amplification"""
+def probe_norm_anisotropic(name, D, N, dt, seed, kind=None):
+    """strongly anisotropic SPD diffusivity matrices (large off-diagonal entries): still PSD, so still no amplification.
+    kind 0 / 1: equicorrelated with rho = 0.9 / -0.85; kind 2: rank-one-dominated v vᵀ + εI with a NEGATIVE ROW SUM
+    (a matrix that is PSD although its rows do not sum to something positive — tells kᵀAk from Σ_i (Σ_j A_ij) k_i²)"""
     import jax.numpy as jnp
     import exponax as ex
     rng = np.random.default_rng(seed)
     a = float(rng.uniform(0.02, 0.06))
     rho = float(rng.choice([0.9, -0.85]))
-    A = a * ((1 - rho) * np.eye(D) + rho * np.ones((D, D))) if rho > 0 else a * (np.eye(D) + rho / (D - 1 + 1e-9) * (np.ones((D, D)) - np.eye(D)))
+    if kind is not None and kind < 2:
+        rho = [0.9, -0.85][kind]
+    if kind == 2:
+        v = np.array([1.0, -3.0, 0.5][:D])
+        A = a * (np.outer(v, v) + 0.05 * np.eye(D))
+    else:
+        A = a * ((1 - rho) * np.eye(D) + rho * np.ones((D, D))) if rho > 0 else a * (np.eye(D) + rho / (D - 1 + 1e-9) * (np.ones((D, D)) - np.eye(D)))
     assert np.all(np.linalg.eigvalsh(A) > 0)
     L = float(rng.choice([1.0, 2 * np.pi]))
     if name == "Diffusion":
@@ -132,12 +140,12 @@ def oracle(ctx, deep):
                     break
     for name in ("Diffusion", "AdvectionDiffusion"):
         for (D, N) in ([(2, 7), (2, 8), (3, 5)] if not deep else [(2, 6), (2, 7), (2, 8), (2, 9), (3, 4), (3, 5)]):
-            for dt in (0.1, 10.0):
-                r = probe_norm_anisotropic(name, D, N, dt, ctx.seed + D + N)
-                ctx.count(("oracle_norm_anisotropic", name, D, N, dt))
+            for dt, kind in ((0.1, 0), (10.0, 1), (0.1, 2), (10.0, 2)) if not deep else [(d, k) for d in (0.1, 10.0) for k in (0, 1, 2)]:
+                r = probe_norm_anisotropic(name, D, N, dt, ctx.seed + D + N, kind)
+                ctx.count(("oracle_norm_anisotropic", name, D, N, dt, kind))
                 if not r["ok"]:
                     fails.append({"key": f"C11:norm-anisotropic:{name}", "what": f"{name} with a strongly anisotropic SPD diffusivity (D={D}, N={N}, dt={dt}) amplifies white noise: {r}"[:400],
-                                  "probe": "norm_anisotropic", "args": {"name": name, "D": D, "N": N, "dt": dt, "seed": ctx.seed + D + N}, "observed": r})
+                                  "probe": "norm_anisotropic", "args": {"name": name, "D": D, "N": N, "dt": dt, "seed": ctx.seed + D + N, "kind": kind}, "observed": r})
     for (D, N) in cases[:5]:
         r = probe_wave_energy(D, N, 0.7, ctx.seed)
         ctx.count(("oracle_wave_energy", D, N))
